@@ -95,6 +95,19 @@ def other_option_frames(chk):
     ok = "self.preproc.skip_define = 'CheckDefine' in (added_value or [])" in src and len(uses) == 1
     chk.frame("frame.R.flows_only_into_skip_define", ok, {"uses": len(uses)},
               what="-R (added_value) is used for something else than skip_define = 'CheckDefine' in it")
+    # args.R is a one-element list (nargs=1), so `"CheckDefine" in args.R` is list membership, not a
+    # substring test on the word
+    mainf = chk.repo.find_function("norminette/__main__.py:main")
+    decl = [x for x in ast.walk(mainf.node) if isinstance(x, ast.Call) and isinstance(x.func, ast.Attribute)
+            and x.func.attr == "add_argument" and x.args and isinstance(x.args[0], ast.Constant) and x.args[0].value == "-R"]
+    kws = {k.arg: (k.value.value if isinstance(k.value, ast.Constant) else ast.unparse(k.value)) for k in decl[0].keywords} if decl else {}
+    chk.frame("frame.R.is_parsed_as_a_list_of_one_word", bool(decl) and kws.get("nargs") == 1 and "type" not in kws
+              and "action" not in kws, {"add_argument": kws},
+              what=f"-R is no longer declared with nargs=1 ({kws}): membership of 'CheckDefine' in its value changes meaning")
+    ctx_calls = [x for x in ast.walk(mainf.node) if isinstance(x, ast.Call) and isinstance(x.func, ast.Name) and x.func.id == "Context"]
+    ok_pass = bool(ctx_calls) and all(len(c.args) >= 4 and ast.unparse(c.args[3]) == "args.R" for c in ctx_calls)
+    chk.frame("frame.R.passed_unchanged_to_Context", ok_pass, {"calls": [ast.unparse(c) for c in ctx_calls]},
+              what="main() no longer passes args.R unchanged as Context's added_value")
     # in CheckPreprocessorDefine.run the early return precedes every emission
     f = chk.repo.find_function("norminette/rules/check_preprocessor_define.py:CheckPreprocessorDefine.run")
     first_emit = min([x.lineno for x in ast.walk(f.node) if isinstance(x, ast.Call) and isinstance(x.func, ast.Attribute)
